@@ -120,14 +120,21 @@ def run(out, tier, seed):
     out.transitions += r.generated
     out.extra["exhaustive_histories"] = {"depth": depth, "count": len(hs), "universe": [S, P, O], "ops": ops}
     vocabs = ["plain", "falsy"] if quick else ["plain", "falsy", "hostile", "typed"]
+    if len(hs) > 40000:
+        # depth 3 over this universe is 373 248 histories: a seeded stride keeps the replay within memory (every history is still model-checked)
+        stride = len(hs) // 40000 + 1
+        hs = hs[seed % stride::stride]
+        out.extra["exhaustive_histories"]["replayed"] = len(hs)
     for ci, cfgv in enumerate(CONFIGS):
         for hi, h in enumerate(hs):
-            for vb in ([vocabs[(hi + ci) % len(vocabs)]] if quick else vocabs):
-                jobs.append({"cfg": dict(base, vocab=vb, **cfgv), "events": h})
+            jobs.append({"cfg": dict(base, vocab=vocabs[(hi + ci) % len(vocabs)], **cfgv), "events": h})
     # overlapping universe (same IRI in all three positions)
     r2, hs2 = tlc.gen_histories("TripleStore", universe_consts(["a", "b"], ["a"], ["a", "b"], ["g1"], ["add", "remove", "set"], 3 if quick else 4))
     out.states += r2.distinct
     out.transitions += r2.generated
+    if len(hs2) > 30000:
+        stride2 = len(hs2) // 30000 + 1
+        hs2 = hs2[seed % stride2::stride2]
     for cfgv in CONFIGS:
         for h in hs2:
             jobs.append({"cfg": dict(facade=cfgv["facade"], store=cfgv["store"], S=["a", "b"], P=["a"], O=["a", "b"], names=["g1"], vocab="plain"), "events": h})
